@@ -210,6 +210,8 @@ class OptimizerGeneric:
         Args:
             x (array-like): The values of the variables.
         """
+        if not np.all(np.isfinite(x)):
+            return  # never write non-finite values into the optics
         for idvar, var in enumerate(self.problem.variables):
             var.update(x[idvar])
         self.problem.update_optics()  # update all optics (e.g., pickups)
@@ -224,6 +226,9 @@ class OptimizerGeneric:
         Returns:
             rss (float): The residual sum of squares.
         """
+        # scipy may probe non-finite points (e.g. after a failed line search)
+        if not np.all(np.isfinite(x)):
+            return 1e10
         self._set_variables(x)
         funs = np.array([op.fun() for op in self.problem.operands])
         rss = np.sum(funs**2)
